@@ -56,6 +56,7 @@ class C12(Check):
     pid = "C12"
     title = "Symbolic equations and Jacobian agree with the numeric model"
     rules = {
+        "Y10": "(shared with C06) semantics of the function translator the symbolic model is built with: S2, S6, S9, S10, S11 of C06",
         "Y1": "components are substituted in dependency order: a loop that defines symbols consumed by later iterations iterates the "
               "cached topological order, and reactions are made available to derived quantities as well",
         "Y2": "every call of fn_to_sympy agrees with its signature (arity, keyword names, the argument list is a list and not a product)",
@@ -69,7 +70,7 @@ class C12(Check):
               "over the dynamic table (sibling of the numeric assemblers of C01)",
         "Y8": "an untranslatable derived quantity, reaction or coefficient raises",
     }
-    floors = {"Y1": 2, "Y2": 15, "Y3": 1, "Y4": 2, "Y5": 3, "Y6": 1, "Y7": 15, "Y8": 3, "Y9": 2}
+    floors = {"Y10": 10, "Y1": 2, "Y2": 15, "Y3": 1, "Y4": 2, "Y5": 3, "Y6": 1, "Y7": 15, "Y8": 3, "Y9": 2}
     decided = [
         "conversion does not depend on the declaration order of derived quantities and reactions",
         "equations are aligned with the variables; untouched variables get a zero equation",
@@ -213,6 +214,7 @@ class C12(Check):
             self.violated("Y9", SYM, q, "both-tables", fn, "the symbolic equations are not assembled from both the static and the dynamic coefficient table")
         self.y2()
         self.y5()
+        self.borrow("C06", ("S2", "S6", "S9", "S10", "S11"), "Y10")
         self.y7()
 
     def y2(self) -> None:
